@@ -72,7 +72,7 @@ def jobs(tier, seed):
             within = "beyond" not in sfx
             for mode, fn in ((4, "decode"), (5, "reconstruct")):
                 J.append(Job("xor.%s%s@%s" % (fn, sfx, tag), group="xor.%s%s" % (fn, "" if within else ".beyond3"),
-                             props=(["C05", "C01", "C02"] if mode == 4 else ["C05", "C03", "C02"]) if within else ["C02"],
+                             props=(["C05", "C01", "C02", "C15"] if mode == 4 else ["C05", "C03", "C02", "C15"]) if within else ["C02", "C15"],
                              strength="P#" if complete else "B",
                              bound="" if complete else "quick tier: 3-erasure sets sampled by lowest erased index (2 of the 7 highest of its %d values, VERIF_SEED: the sets with a low lowest index are the expensive ones and run in the thorough tier only); all sets of size <= 2 complete; thorough tier enumerates every set" % (n - 2),
                              title=("flat_xor_hd_%s: all erasure sets with %d<=|E|<=%d and lowest erased index in [%d,%d], enumerated: %s" % (
